@@ -10,6 +10,11 @@ type vMember struct {
 	ctx    context.Context
 	cancel context.CancelFunc
 	done   bool // ghost: cancel has been called
+	never  bool // a context that can never end (context.Background and the like: Done() is nil)
+}
+
+func vNeverEnding() *vMember {
+	return &vMember{ctx: context.Background(), cancel: func() {}, never: true}
 }
 
 type vState struct {
@@ -65,11 +70,12 @@ func VerifPoolLifecycle() {
 	s.p = NewPool(ctxs...)
 	s.checkNeverEarly()
 	for op := 0; op < vOps(); op++ {
-		switch zzverif.Choose("op", 5) {
+		what := zzverif.Choose("op", 6)
+		switch what {
 		case 0: // end a live member
 			var live []*vMember
 			for _, m := range s.members {
-				if !m.done {
+				if !m.done && !m.never {
 					live = append(live, m)
 				}
 			}
@@ -80,8 +86,11 @@ func VerifPoolLifecycle() {
 			s.checkNeverEarly()
 			m.done = true
 			m.cancel()
-		case 1, 2: // Add a live / an already ended context
-			m := vNewMember(op == 2)
+		case 1, 2, 5: // Add a live / an already ended / a never-ending context
+			m := vNewMember(what == 2)
+			if what == 5 {
+				m = vNeverEnding()
+			}
 			certain := !s.cancelCalled && !s.allMembersDone() // pool cannot have ended: a member is live
 			s.p.Add(m.ctx)
 			if certain {
@@ -109,16 +118,39 @@ func VerifPoolLifecycle() {
 	zzverif.WaitQuiescent()
 	s.checkNeverEarly()
 	// eventually: once every member has ended the pool ends and its watcher goroutine exits
+	immortal := false
 	for _, m := range s.members {
-		if !m.done {
+		if m.never {
+			immortal = true
+		} else if !m.done {
 			m.done = true
 			m.cancel()
 		}
 	}
+	immortalMaybe := false
 	for _, m := range s.maybe {
+		if m.never {
+			immortalMaybe = true
+		}
 		m.cancel()
 	}
 	zzverif.WaitQuiescent()
+	if immortalMaybe && !immortal && !s.cancelCalled {
+		// a never-ending context offered when the pool might already have ended: whether it is tracked (and keeps the
+		// pool live) is unspecified; end the pool explicitly
+		s.checkNeverEarly()
+		s.p.Cancel()
+		s.cancelCalled = true
+		zzverif.WaitQuiescent()
+	}
+	if immortal && !s.cancelCalled {
+		// a member that can never end keeps the pool live until Cancel
+		s.checkNeverEarly()
+		zzverif.Assert(s.p.Err() == nil, "pool_live_while_a_never_ending_member_is_tracked")
+		s.p.Cancel()
+		s.cancelCalled = true
+		zzverif.WaitQuiescent()
+	}
 	zzverif.Assert(s.p.Err() != nil, "pool_done_once_all_members_done")
 	zzverif.Assert(zzverif.ThreadsAliveIs(0), "watcher_goroutine_ended")
 	zzverif.Cover("pool_lifecycle_done")
